@@ -66,6 +66,56 @@ Theorem no_panic_covered' w o : covered_op o = true -> PanicFree w -> SizeOk w -
   (forall s, run12 o w <> Pan s) /\ run12 o w <> Fuel.
 Proof. intros. apply runs_not_pan. apply no_panic_covered; assumption. Qed.
 
+(* ---- the part of PanicFree that is this development's own: Closed is kept (partial: the operations whose proof runs
+   through a Closed-carrying judgement; the tree part (finite chains, child lists = parent links) is C03's Core) *)
+Definition closed_pres_op (o : op) : bool :=
+  match o with
+  | OpSetCData _ v => match v with DFloat _ => false | _ => true end
+  | OpSetItemName _ _ | OpSetRefTarget _ _ | OpAddToFile _ _ | OpRemove _ _ | OpRemoveFromFile _ _
+  | OpCreateNamed _ _ _ | OpCreateNamedAt _ _ _ _ => true
+  | _ => false
+  end.
+
+Lemma welem_inv (m : W id) w r w' : welem m w = Val (r, w') -> exists r0, m w = Val (r0, w').
+Proof. unfold welem, wbind. destruct (m w) as [[[a|e] w1]|s|]; try discriminate; intros [= <- <-]; eauto. Qed.
+Lemma wunit_inv (m : W unit) w r w' : wunit m w = Val (r, w') -> exists r0, m w = Val (r0, w').
+Proof. unfold wunit, wbind. destruct (m w) as [[[a|e] w1]|s|]; try discriminate; intros [= <- <-]; eauto. Qed.
+
+Theorem closed_preserved_partial w o : closed_pres_op o = true -> PanicFree w -> op_wf w o ->
+  forall r w', run12 o w = Val (r, w') -> Closed T tab_el tab_en w'.
+Proof.
+  intros COV PF WF r w' E. unfold run12, run_op in E.
+  assert (G : forall {A} (m : W A) P r0, runsQ m w (good T tab_el tab_en w P) -> m w = Val (r0, w') -> Closed T tab_el tab_en w').
+  { intros A m P r0 (r1 & w1 & E1 & C1 & _) E0. rewrite E0 in E1. injection E1 as _ <-. exact C1. }
+  destruct o; try discriminate COV; cbn [op_wf] in WF; unfold h_ok, f_ok in WF.
+  - apply welem_inv in E as (r0 & E). destruct WF as [W1 W2]. eapply G; [apply (ENV gq_create_named); [exact PF|exact W1|exact W2|exact SHORT_OK]|exact E].
+  - apply welem_inv in E as (r0 & E). destruct WF as [W1 W2]. eapply G; [apply (ENV gq_create_named_at); [exact PF|exact W1|exact W2|exact SHORT_OK]|exact E].
+  - apply wunit_inv in E as (r0 & E). destruct WF as [W1 W2].
+    destruct (ENV rg_e_remove_sub_element w w h sub) as (r1 & w1 & E1 & C1 & _).
+    + apply PF.
+    + apply rmrel_refl.
+    + apply (ENV Live12_of_PanicFree). exact PF.
+    + exact W1.
+    + exact W2.
+    + rewrite E in E1. injection E1 as _ <-. exact C1.
+  - apply wunit_inv in E as (r0 & E). eapply G; [apply (ENV gq_set_item_name); [exact PF|exact WF]|exact E].
+  - apply wunit_inv in E as (r0 & E). destruct WF as [W1 W2].
+    eapply G; [apply (ENV gq_set_character_data); [exact PF|exact W1|exact W2|]|exact E].
+    intros b ->. discriminate COV.
+  - apply wunit_inv in E as (r0 & E). destruct WF as [W1 W2].
+    eapply G; [apply (ENV gq_set_reference_target EN_OK); [exact PF|exact W1|exact W2]|exact E].
+  - apply wunit_inv in E as (r0 & E). destruct WF as [W1 W2].
+    eapply G; [apply (ENV gq_add_to_file); [exact PF|exact W1|exact W2]|exact E].
+  - apply wunit_inv in E as (r0 & E). destruct WF as [W1 W2].
+    destruct (ENV rg_e_remove_from_file w w h f) as (r1 & w1 & E1 & C1 & _).
+    + apply PF.
+    + apply rmrel_refl.
+    + apply (ENV Live12_of_PanicFree). exact PF.
+    + exact W1.
+    + exact W2.
+    + rewrite E in E1. injection E1 as _ <-. exact C1.
+Qed.
+
 Theorem path_suffix w n :
   Closed T tab_el tab_en w -> UpWF w -> node_ok T tab_el tab_en w n ->
   exists r, path_of T n w = Val (r, w) /\
